@@ -231,6 +231,7 @@ fn run_c_probe(scratch: &Scratch, tag: &str, header: &str, names: &[String], cxx
 
 const RUST_PROBE_PRELUDE: &str = r#"
 #![allow(warnings)]
+#![deny(overflowing_literals)]
 trait Pv { fn pv(&self) -> String; }
 macro_rules! ipv { ($($t:ty, $s:expr);*) => { $(impl Pv for $t { fn pv(&self) -> String { format!("i {} {} {}", *self as i128, std::mem::size_of::<$t>(), $s) } })* } }
 ipv!(i8, 1; i16, 1; i32, 1; i64, 1; i128, 1; isize, 1; u8, 0; u16, 0; u32, 0; u64, 0; u128, 0; usize, 0);
@@ -253,7 +254,13 @@ fn run_rust_probe(scratch: &Scratch, tag: &str, mods: &[(String, String, Vec<(St
         for (label, ex) in exprs { src.push_str(&format!("println!(\"{m}/{label} {{}}\", {ex});\n")); }
     }
     src.push_str("}\n");
-    let exe = rustc_bin(scratch, tag, &src, &[], &["-C", "opt-level=0", "-C", "debuginfo=0"]).map_err(|e| format!("rustc failed: {}", &e[..e.len().min(2500)]))?;
+    // not `drive::rustc_bin`: that caps lints, and `overflowing_literals` (deny by default) is exactly
+    // how rustc says "this type cannot hold this literal"
+    let f = scratch.path(&format!("{tag}.rs"));
+    std::fs::write(&f, &src).unwrap();
+    let exe = scratch.path(tag);
+    let (rc, _o, e) = run(Command::new("rustc").args(["--edition", "2021", "-C", "opt-level=0", "-C", "debuginfo=0", "-o"]).arg(&exe).arg(&f));
+    if rc != 0 { return Err(format!("rustc failed: {}", &e[..e.len().min(2500)])); }
     let (rc, o, e) = run_exe(&exe);
     if rc != 0 { return Err(format!("rust probe exited {rc}: {e}")); }
     let mut out = HashMap::new();
@@ -362,6 +369,9 @@ fn macro_header_case(scratch: &Scratch, case: &str, defs: &[(String, E)], optset
     for m in &base { if let Some(t) = cval_type(&m.cval) { tenv.insert(m.name.clone(), t); } }
     let my_flags = def_flags(&tenv, defs);
     for (i, m) in base.iter().enumerate() {
+        if m.flags == "-" && m.outcome.starts_with("int:") { rep.inc("macro_defs_in_theorem_fragment(signed,no-UB,cexpr-parsable)"); }
+        if m.flags != "-" { rep.inc("macro_defs_in_some_region"); }
+        let k = m.outcome.split(':').next().unwrap_or("?"); rep.inc(&format!("cexpr_outcome_{k}"));
         rep.inc("region_predicates_compared");
         if my_flags[i].text() != m.flags {
             push_cap(&mut rep.region_failures, J::obj(vec![("definition", J::s(format!("#define {} {}", defs[i].0, defs[i].1.to_c()))), ("lean", J::s(&m.flags)), ("harness", J::s(my_flags[i].text()))]));
@@ -657,7 +667,7 @@ fn enum_section(scratch: &Scratch, r: &mut Rng, n_headers: usize, per: usize, al
                 let model_repr = toks[0].strip_prefix("repr=").unwrap_or("?").split(',').next().unwrap_or("?").to_string();
                 for (i, (v, _, _)) in e.variants.iter().enumerate() {
                     rep.inc("correspondence_compared"); rep.inc("enum_variants_compared");
-                    let want = toks.get(i + 1).and_then(|t| t.split_once('=')).map(|(_, x)| x.to_string()).unwrap_or_default();
+                    let want = toks.get(i + 2).and_then(|t| t.split_once('=')).map(|(_, x)| x.to_string()).unwrap_or_default();
                     match find_variant(&inv, &module, v) {
                         Ok(f) => {
                             if f.lit != want || f.repr != model_repr {
@@ -691,6 +701,149 @@ fn enum_section(scratch: &Scratch, r: &mut Rng, n_headers: usize, per: usize, al
             if rep.samples.len() < 10 && key.ends_with("v0") && key.starts_with("rust_c") && rep.counts.get("enum_samples").copied().unwrap_or(0) < 2 {
                 rep.inc("enum_samples");
                 rep.samples.push(J::obj(vec![("kind", J::s("enum")), ("declaration", J::s(enum_text(e))), ("options", J::s(key.split('/').next().unwrap())), ("enumerator", J::s(v)), ("clang", J::s(format!("{cv} size {csize} signed {csigned}"))), ("rust_probe", J::s(rv_text(rv)))]));
+            }
+        }
+    }
+}
+
+
+// ---------------------------------------------------------------- special cases: regions outside the generators
+
+/// One declaration per header so that a rustc rejection is attributable.  Each case states the
+/// region predicate (mirrored in Lean: `enumBoolTranslated`, `wcharRegion`; long double is
+/// syntactic) and the check is the same as everywhere: the model must predict bindgen's output,
+/// and a C-vs-Rust disagreement (or a rustc rejection) is a known finding only inside the region.
+fn special_section(scratch: &Scratch, thorough: bool, rep: &mut Rep) {
+    // (a) enum over bool, every style / translate / prepend combination
+    let text = "enum EBa : bool { kEBf = false, kEBt = true, kEBd = true };\n";
+    std::fs::write(scratch.path("sb.hpp"), text).unwrap();
+    let mut combos: Vec<(&str, bool, bool)> = vec![];
+    for st in STYLES { for tr in [false, true] { for noprep in [false, true] { if thorough || !noprep { combos.push((st, tr, noprep)); } } } }
+    for (st, tr, noprep) in combos {
+        let module = format!("{}_{}{}", st, if tr { "t" } else { "c" }, if noprep { "n" } else { "p" });
+        let mut flags: Vec<&str> = vec!["--default-enum-style", st, "--no-layout-tests"];
+        if tr { flags.push("--translate-enum-integer-types"); }
+        if noprep { flags.push("--no-prepend-enum-name"); }
+        let out = generate_text(scratch, "sb.hpp", text, &flags, &["-x", "c++", "-std=c++14"], false);
+        rep.inc("bindgen_runs"); rep.inc("special_cases");
+        let Some(b) = out.bindings else { push_cap(&mut rep.corr_failures, J::obj(vec![("header", J::s(text)), ("options", J::s(&module)), ("implementation", J::s(format!("{:?} {:?}", out.error, out.panic)))])); continue; };
+        let inv = match inventory(&b) { Ok(i) => i, Err(e) => { rep.machinery.push(e); continue; } };
+        let ans = model(&[format!("c05 e style={st} tr={} ty=bool kEBf=0 kEBt=1 kEBd=1", tr as u8)]).remove(0);
+        let toks: Vec<&str> = ans.split(' ').collect();
+        let model_repr = toks[0].strip_prefix("repr=").unwrap_or("?").split(',').next().unwrap_or("?").to_string();
+        let lean_region = toks.get(1).and_then(|t| t.strip_prefix("region=")).unwrap_or("?");
+        let is_rust = st.starts_with("rust");
+        let my_region = if tr && !is_rust { "b" } else { "-" };
+        rep.inc("region_predicates_compared");
+        if lean_region != my_region { push_cap(&mut rep.region_failures, J::obj(vec![("case", J::s(&module)), ("lean", J::s(lean_region)), ("harness", J::s(my_region))])); }
+        let mut exprs = vec![]; let mut predicted = true;
+        for (i, v) in ["kEBf", "kEBt", "kEBd"].iter().enumerate() {
+            rep.inc("correspondence_compared");
+            let want = toks.get(i + 2).and_then(|t| t.split_once('=')).map(|(_, x)| x.to_string()).unwrap_or_default();
+            match find_variant(&inv, "m", v) {
+                Ok(f) => { if f.lit != want || f.repr != model_repr { predicted = false; push_cap(&mut rep.corr_failures, J::obj(vec![("enum", J::s(text)), ("options", J::s(&module)), ("name", J::s(*v)), ("implementation", J::s(format!("{} repr={}", f.lit, f.repr))), ("model", J::s(format!("{want} repr={model_repr}")))])); } exprs.push((v.to_string(), f.probe)); }
+                Err(e) => { predicted = false; push_cap(&mut rep.corr_failures, J::obj(vec![("enum", J::s(text)), ("options", J::s(&module)), ("name", J::s(*v)), ("implementation", J::s(e))])); }
+            }
+        }
+        rep.inc("oracle_compared");
+        let sample = |what: String| J::obj(vec![("header", J::s(text)), ("options", J::s(&module)), ("bindgen_emits", J::s(b.trim())), ("what", J::s(what)), ("c_value", J::s("false = 0, true = 1 in a 1-byte unsigned type"))]);
+        match run_rust_probe(scratch, &format!("sb_{module}"), &[("m".to_string(), b.clone(), exprs)]) {
+            Ok(rv) => {
+                let want = [("m/kEBf", 0i128), ("m/kEBt", 1), ("m/kEBd", 1)];
+                let ok = want.iter().all(|(k, v)| matches!(rv.get(*k), Some(RV::Int { v: x, size: 1, signed: false }) if x == v));
+                if ok { rep.inc("oracle_agree"); } else { push_cap(&mut rep.oracle_failures, sample(format!("values {:?}", rv))); }
+            }
+            Err(e) => {
+                if my_region == "b" && predicted { rep.inc("oracle_mismatch_in_known_region"); rep.known_hit("enum_bool_translated", sample(format!("rustc rejects: {}", e.lines().find(|l| l.contains("error")).unwrap_or("")))); }
+                else { push_cap(&mut rep.oracle_failures, sample(format!("rustc rejects: {e}"))); }
+            }
+        }
+    }
+    // (b) wchar_t
+    let wcases: [(&str, &str, Option<i128>); 3] = [
+        ("sw1", "enum EWa : wchar_t { kEWn = -1, kEWp = 5 };\n", None),
+        ("sw2", "const wchar_t kWneg = -1;\n", Some(-1)),
+        ("sw3", "const wchar_t kWpos = 97;\n", Some(97)),
+    ];
+    for (case, text, var) in wcases {
+        std::fs::write(scratch.path(&format!("{case}.hpp")), text).unwrap();
+        let out = generate_text(scratch, &format!("{case}.hpp"), text, &["--no-layout-tests"], &["-x", "c++", "-std=c++14"], false);
+        rep.inc("bindgen_runs"); rep.inc("special_cases");
+        let Some(b) = out.bindings else { push_cap(&mut rep.corr_failures, J::obj(vec![("header", J::s(text)), ("implementation", J::s(format!("{:?} {:?}", out.error, out.panic)))])); continue; };
+        let inv = match inventory(&b) { Ok(i) => i, Err(e) => { rep.machinery.push(e); continue; } };
+        let sample = |what: String, c: &str| J::obj(vec![("header", J::s(text)), ("bindgen_emits", J::s(b.trim())), ("what", J::s(what)), ("c_value", J::s(c))]);
+        if let Some(v) = var {
+            let name = if v < 0 { "kWneg" } else { "kWpos" };
+            let ans = model(&[format!("c05 v ty=wchar v={v}")]).remove(0);
+            let (want, region) = ans.split_once(" region=").unwrap_or((&ans, "?"));
+            let my_region = if v < 0 { "w" } else { "-" };
+            rep.inc("region_predicates_compared");
+            if region != my_region { push_cap(&mut rep.region_failures, J::obj(vec![("case", J::s(case)), ("lean", J::s(region)), ("harness", J::s(my_region))])); }
+            let actual = inv.consts.iter().find(|c| c.name == name).map(|c| format!("{}:{}", c.ty, c.val.text()));
+            rep.inc("correspondence_compared");
+            let predicted = actual.as_deref() == Some(want);
+            if !predicted { push_cap(&mut rep.corr_failures, J::obj(vec![("header", J::s(text)), ("implementation", J::s(actual.clone().unwrap_or_default())), ("model", J::s(want))])); }
+            rep.inc("oracle_compared");
+            match run_rust_probe(scratch, &format!("{case}_rs"), &[("m".to_string(), b.clone(), vec![(name.to_string(), format!("m::{name}.pv()"))])]) {
+                Ok(rv) => {
+                    // C: wchar_t is a signed 32-bit int
+                    let ok = matches!(rv.get(&format!("m/{name}")), Some(RV::Int { v: x, size: 4, .. }) if *x == v);
+                    if ok { rep.inc("oracle_agree"); } else { push_cap(&mut rep.oracle_failures, sample(format!("{:?}", rv), &format!("{v} (wchar_t = int)"))); }
+                }
+                Err(e) => {
+                    if my_region == "w" && predicted { rep.inc("oracle_mismatch_in_known_region"); rep.known_hit("wchar_treated_unsigned", sample(format!("rustc rejects: {}", e.lines().find(|l| l.contains("error")).unwrap_or("")), "-1 (wchar_t = int)")); }
+                    else { push_cap(&mut rep.oracle_failures, sample(format!("rustc rejects: {e}"), &format!("{v}"))); }
+                }
+            }
+        } else {
+            let ans = model(&["c05 e style=consts tr=0 ty=wchar kEWn=-1 kEWp=5".to_string()]).remove(0);
+            let toks: Vec<&str> = ans.split(' ').collect();
+            let model_repr = toks[0].strip_prefix("repr=").unwrap_or("?").split(',').next().unwrap_or("?").to_string();
+            let region = toks.get(1).and_then(|t| t.strip_prefix("region=")).unwrap_or("?");
+            rep.inc("region_predicates_compared");
+            if region != "w" { push_cap(&mut rep.region_failures, J::obj(vec![("case", J::s(case)), ("lean", J::s(region)), ("harness", J::s("w"))])); }
+            let mut predicted = true; let mut exprs = vec![];
+            for (i, v) in ["kEWn", "kEWp"].iter().enumerate() {
+                rep.inc("correspondence_compared");
+                let want = toks.get(i + 2).and_then(|t| t.split_once('=')).map(|(_, x)| x.to_string()).unwrap_or_default();
+                match find_variant(&inv, "m", v) {
+                    Ok(f) => { if f.lit != want || f.repr != model_repr { predicted = false; push_cap(&mut rep.corr_failures, J::obj(vec![("enum", J::s(text)), ("name", J::s(*v)), ("implementation", J::s(format!("{} repr={}", f.lit, f.repr))), ("model", J::s(format!("{want} repr={model_repr}")))])); } exprs.push((v.to_string(), f.probe)); }
+                    Err(e) => { predicted = false; push_cap(&mut rep.corr_failures, J::obj(vec![("enum", J::s(text)), ("implementation", J::s(e))])); }
+                }
+            }
+            rep.inc("oracle_compared");
+            match run_rust_probe(scratch, &format!("{case}_rs"), &[("m".to_string(), b.clone(), exprs)]) {
+                Ok(rv) => {
+                    let ok = matches!(rv.get("m/kEWn"), Some(RV::Int { v: -1, size: 4, signed: true })) && matches!(rv.get("m/kEWp"), Some(RV::Int { v: 5, size: 4, signed: true }));
+                    if ok { rep.inc("oracle_agree"); }
+                    else if predicted { rep.inc("oracle_mismatch_in_known_region"); rep.known_hit("wchar_treated_unsigned", sample(format!("rust values {:?}", rv.get("m/kEWn").map(rv_text)), "kEWn = -1 in a 4-byte signed type")); }
+                    else { push_cap(&mut rep.oracle_failures, sample(format!("{:?}", rv), "kEWn = -1, kEWp = 5 (signed 4 bytes)")); }
+                }
+                Err(e) => push_cap(&mut rep.oracle_failures, sample(format!("rustc rejects: {e}"), "kEWn = -1")),
+            }
+        }
+    }
+    // (c) const long double
+    let text = "const long double kLD = 1.5L;\n";
+    std::fs::write(scratch.path("sl.h"), text).unwrap();
+    let out = generate_text(scratch, "sl.h", text, &["--no-layout-tests"], &[], false);
+    rep.inc("bindgen_runs"); rep.inc("special_cases");
+    if let Some(b) = out.bindings {
+        if let Ok(inv) = inventory(&b) {
+            let actual = inv.consts.iter().find(|c| c.name == "kLD").map(|c| format!("{}:{}", c.ty, c.val.text()));
+            rep.inc("correspondence_compared");
+            // model: `rustIntName .ldouble` = "u128", value printed as the f64 clang reports
+            let want = format!("u128:{:016x}", 1.5f64.to_bits());
+            let predicted = actual.as_deref() == Some(want.as_str());
+            if !predicted { push_cap(&mut rep.corr_failures, J::obj(vec![("header", J::s(text)), ("implementation", J::s(actual.unwrap_or_default())), ("model", J::s(want))])); }
+            rep.inc("oracle_compared");
+            let sample = |what: String| J::obj(vec![("header", J::s(text)), ("bindgen_emits", J::s(b.trim())), ("what", J::s(what)), ("c_value", J::s("1.5 (long double)"))]);
+            match run_rust_probe(scratch, "sl_rs", &[("m".to_string(), b.clone(), vec![])]) {
+                Ok(_) => { rep.inc("oracle_agree"); }
+                Err(e) => {
+                    if predicted { rep.inc("oracle_mismatch_in_known_region"); rep.known_hit("constvar_long_double", sample(format!("rustc rejects: {}", e.lines().find(|l| l.contains("error")).unwrap_or("")))); }
+                    else { push_cap(&mut rep.oracle_failures, sample(format!("rustc rejects: {e}"))); }
+                }
             }
         }
     }
@@ -758,6 +911,8 @@ fn var_section(scratch: &Scratch, r: &mut Rng, n_headers: usize, per: usize, rep
         for (n, ans) in req_names.iter().zip(answers.iter()) {
             rep.inc("correspondence_compared"); rep.inc("var_int");
             let a = actual.get(n).map(|c| format!("{}:{}", c.ty, c.val.text()));
+            let ans = ans.split(' ').next().unwrap_or("").to_string();
+            let ans = &ans;
             if a.as_deref() != Some(ans.as_str()) {
                 push_cap(&mut rep.corr_failures, J::obj(vec![("header", J::s(text.lines().find(|l| l.contains(n.as_str())).unwrap_or(""))), ("name", J::s(n)), ("implementation", J::s(a.unwrap_or("(nothing)".into()))), ("model", J::s(ans))]));
             }
@@ -830,6 +985,96 @@ fn corpus_defs() -> Vec<(String, E)> {
     ]
 }
 
+
+// ---------------------------------------------------------------- oracle-only search (model not available)
+
+/// Used by the check when the Lean side does not build (broken obligation / translator failure):
+/// literal macros at and around every threshold under all option sets, judged by clang and rustc
+/// alone; regions are computed by the harness mirror with the types clang reports.
+fn oracle_only_search(scratch: &Scratch, r: &mut Rng, rep: &mut Rep) {
+    let mut defs: Vec<(String, E)> = vec![];
+    let mut i = 0;
+    for &v in INTERESTING.iter() {
+        for d in [-1i128, 0, 1] {
+            let n = v as i128 + d;
+            if n < 0 || n > u64::MAX as i128 { continue; }
+            for neg in [false, true] {
+                let l = int_lit(r, n as u128, false);
+                let e = if neg { E::Paren(Box::new(E::Un("-", Box::new(l)))) } else { l };
+                defs.push((format!("M{i}"), e)); i += 1;
+            }
+        }
+    }
+    for _ in 0..200 { let n = gen_int_value(r, false); let l = int_lit(r, n, true); defs.push((format!("M{i}"), l)); i += 1; }
+    let text = header_text(&defs);
+    std::fs::write(scratch.path("oo.h"), &text).unwrap();
+    let names: Vec<String> = defs.iter().map(|d| d.0.clone()).collect();
+    let cvals = match run_c_probe(scratch, "oo_probe", "oo.h", &names, false) { Ok(v) => v, Err(e) => { rep.machinery.push(e); return; } };
+    let mut tenv: HashMap<String, CTy> = HashMap::new();
+    for (n, c) in &cvals { if let CV::Int { ty, .. } = c { tenv.insert(n.clone(), *ty); } }
+    let flags = def_flags(&tenv, &defs);
+    for os in [OptSet { sg: false, fit: false, fb: false }, OptSet { sg: true, fit: false, fb: false }, OptSet { sg: false, fit: true, fb: false }, OptSet { sg: true, fit: true, fb: false }] {
+        let out = generate_text(scratch, "oo.h", &text, &os.flags(), &[], false);
+        rep.inc("bindgen_runs");
+        let Some(b) = out.bindings else { continue; };
+        let Ok(inv) = inventory(&b) else { continue; };
+        // one rustc per constant would be slow: first try all, on rejection bisect by halves
+        let all: Vec<&ConstItem> = inv.consts.iter().collect();
+        let mut stack: Vec<Vec<&ConstItem>> = vec![all];
+        while let Some(group) = stack.pop() {
+            if group.is_empty() { continue; }
+            let body: String = group.iter().map(|c| format!("pub const {}: {} = {};\n", c.name, c.ty, c.val.text())).collect();
+            let exprs: Vec<(String, String)> = group.iter().map(|c| (c.name.clone(), format!("m::{}.pv()", c.name))).collect();
+            match run_rust_probe(scratch, &format!("oo_{}_{}", os.tag(), stack.len()), &[("m".to_string(), body, exprs)]) {
+                Ok(rv) => for c in &group {
+                    rep.inc("oracle_compared");
+                    let (Some(cv), Some(r)) = (cvals.get(&c.name), rv.get(&format!("m/{}", c.name))) else { continue; };
+                    let idx = names.iter().position(|n| n == &c.name).unwrap();
+                    if same_value(cv, r) { rep.inc("oracle_agree"); }
+                    else if flags[idx].any() { rep.inc("oracle_mismatch_in_known_region"); }
+                    else { push_cap(&mut rep.oracle_failures, J::obj(vec![("header", J::s(format!("#define {} {}\n", c.name, defs[idx].1.to_c()))), ("options", J::s(os.tag())), ("bindgen_emits", J::s(format!("{}:{}", c.ty, c.val.text()))), ("rust_value", J::s(rv_text(r))), ("c_value", J::s(cv_text(cv)))])); }
+                },
+                Err(e) => {
+                    if group.len() == 1 {
+                        let c = group[0];
+                        let idx = names.iter().position(|n| n == &c.name).unwrap();
+                        push_cap(&mut rep.oracle_failures, J::obj(vec![("header", J::s(format!("#define {} {}\n", c.name, defs[idx].1.to_c()))), ("options", J::s(os.tag())), ("bindgen_emits", J::s(format!("{}:{}", c.ty, c.val.text()))),
+                            ("what", J::s(format!("rustc rejects: {}", e.lines().find(|l| l.contains("error")).unwrap_or("")))), ("c_value", J::s(cvals.get(&c.name).map(cv_text).unwrap_or_default()))]));
+                    } else {
+                        let mid = group.len() / 2;
+                        stack.push(group[..mid].to_vec());
+                        stack.push(group[mid..].to_vec());
+                    }
+                }
+            }
+            if rep.oracle_failures.len() >= 3 { break; }
+        }
+    }
+}
+
+fn write_report(args: &Args, rep: &Rep) {
+    // report
+    let known = J::O(rep.known.iter().map(|(k, (n, s))| (k.clone(), J::obj(vec![("hits", J::N(*n as i128)), ("sample", s.clone())]))).collect());
+    let kinds: BTreeMap<String, u64> = rep.kinds.iter().map(|(k, v)| (k.clone(), *v)).collect();
+    let j = J::obj(vec![
+        ("tier", J::s(&args.tier)), ("seed", J::N(args.seed as i128)),
+        ("counts", J::map(&rep.counts)), ("constructor_kinds", J::map(&kinds)),
+        ("distinct_nontrivial", J::N(rep.distinct.len() as i128)),
+        ("samples", J::A(rep.samples.clone())),
+        ("oracle_failures", J::A(rep.oracle_failures.clone())),
+        ("correspondence_failures", J::A(rep.corr_failures.clone())),
+        ("cmodel_failures", J::A(rep.cmodel_failures.clone())),
+        ("region_failures", J::A(rep.region_failures.clone())),
+        ("known", known),
+        ("machinery", J::A(rep.machinery.iter().map(J::s).collect())),
+    ]);
+    write(&args.out.join("report.json"), &j.render());
+    println!("c05: headers={} defs={} oracle_compared={} oracle_failures={} corr_failures={} cmodel_failures={} region_failures={} known={:?} machinery={}",
+        rep.counts.get("macro_headers").copied().unwrap_or(0), rep.counts.get("macro_definitions").copied().unwrap_or(0),
+        rep.counts.get("oracle_compared").copied().unwrap_or(0), rep.oracle_failures.len(), rep.corr_failures.len(), rep.cmodel_failures.len(),
+        rep.region_failures.len(), rep.known.iter().map(|(k, v)| (k.clone(), v.0)).collect::<Vec<_>>(), rep.machinery.len());
+}
+
 // ---------------------------------------------------------------- main
 
 fn main() {
@@ -851,40 +1096,34 @@ fn main() {
         OptSet { sg: false, fit: true, fb: false }, OptSet { sg: true, fit: true, fb: false },
         OptSet { sg: false, fit: false, fb: true }, OptSet { sg: true, fit: true, fb: true },
     ];
+    if args.extra.iter().any(|a| a == "--oracle-only") {
+        let mut r = rng.fork();
+        oracle_only_search(&scratch, &mut r, &mut rep);
+        write_report(&args, &rep);
+        return;
+    }
     // corpus first
     macro_header_case(&scratch, "corpus", &corpus_defs(), &all_sets(), &mut rep);
 
-    let (n_headers, per_header) = if thorough { (60, 420) } else { (5, 300) };
+    let t0 = std::time::Instant::now();
+    let (n_headers, per_header) = if thorough { (36, 400) } else { (5, 300) };
     for h in 0..n_headers {
         let mut r = rng.fork();
         let defs = build_header(&mut r, per_header, &mut rep);
         macro_header_case(&scratch, &format!("m{h}"), &defs, &all_sets(), &mut rep);
     }
-    let (eh, eper) = if thorough { (40, 120) } else { (4, 50) };
+    eprintln!("c05: macros done at {:.0}s", t0.elapsed().as_secs_f64());
+    let (eh, eper) = if thorough { (10, 80) } else { (4, 50) };
     let mut r = rng.fork();
     enum_section(&scratch, &mut r, eh, eper, thorough, &mut rep);
-    let (vh, vper) = if thorough { (12, 420) } else { (2, 150) };
+    eprintln!("c05: enums done at {:.0}s", t0.elapsed().as_secs_f64());
+    let (vh, vper) = if thorough { (10, 400) } else { (2, 150) };
     let mut r = rng.fork();
     var_section(&scratch, &mut r, vh, vper, &mut rep);
 
-    // report
-    let known = J::O(rep.known.iter().map(|(k, (n, s))| (k.clone(), J::obj(vec![("hits", J::N(*n as i128)), ("sample", s.clone())]))).collect());
-    let kinds: BTreeMap<String, u64> = rep.kinds.iter().map(|(k, v)| (k.clone(), *v)).collect();
-    let j = J::obj(vec![
-        ("tier", J::s(&args.tier)), ("seed", J::N(args.seed as i128)),
-        ("counts", J::map(&rep.counts)), ("constructor_kinds", J::map(&kinds)),
-        ("distinct_nontrivial", J::N(rep.distinct.len() as i128)),
-        ("samples", J::A(rep.samples.clone())),
-        ("oracle_failures", J::A(rep.oracle_failures.clone())),
-        ("correspondence_failures", J::A(rep.corr_failures.clone())),
-        ("cmodel_failures", J::A(rep.cmodel_failures.clone())),
-        ("region_failures", J::A(rep.region_failures.clone())),
-        ("known", known),
-        ("machinery", J::A(rep.machinery.iter().map(J::s).collect())),
-    ]);
-    write(&args.out.join("report.json"), &j.render());
-    println!("c05: headers={} defs={} oracle_compared={} oracle_failures={} corr_failures={} cmodel_failures={} region_failures={} known={:?} machinery={}",
-        rep.counts.get("macro_headers").copied().unwrap_or(0), rep.counts.get("macro_definitions").copied().unwrap_or(0),
-        rep.counts.get("oracle_compared").copied().unwrap_or(0), rep.oracle_failures.len(), rep.corr_failures.len(), rep.cmodel_failures.len(),
-        rep.region_failures.len(), rep.known.iter().map(|(k, v)| (k.clone(), v.0)).collect::<Vec<_>>(), rep.machinery.len());
+    eprintln!("c05: vars done at {:.0}s", t0.elapsed().as_secs_f64());
+    special_section(&scratch, thorough, &mut rep);
+    eprintln!("c05: special cases done at {:.0}s", t0.elapsed().as_secs_f64());
+
+    write_report(&args, &rep);
 }
